@@ -64,7 +64,7 @@ func c12SilenceKlog() {
 
 func c12K2Limit(thorough bool) int {
 	if thorough {
-		return 160
+		return 200
 	}
 	return 80
 }
@@ -129,8 +129,8 @@ var (
 	c12eManifestSize = c12E("manifest.Manifest.ContentSizeBytes")
 
 	c12eOasFromBytes = c12E("indexes.OffsetAndSize.FromBytes")
-	c12eLogRead     = c12E("linkedlog.LinkedLog.Read")
-	c12eLogReadSize = c12E("linkedlog.LinkedLog.ReadWithSize")
+	c12eLogRead      = c12E("linkedlog.LinkedLog.Read")
+	c12eLogReadSize  = c12E("linkedlog.LinkedLog.ReadWithSize")
 
 	c12eMetaUnmarshal = c12E("indexmeta.Meta.UnmarshalBinary")
 	c12eMetaGetUint64 = c12E("indexmeta.Meta.GetUint64")
@@ -536,12 +536,15 @@ func (w *c12World) frameFamilies() []*c12Fam {
 // CAR
 // ---------------------------------------------------------------------------------------------
 
+// values beyond the CAR format's documented section-size limit (32 MiB): 2 GiB and 1 TiB
+var c12BeyondCarLimit = []uint64{1 << 31, 1 << 40}
+
 func c12CarFields(t *cargen.Truth, base int, onlyObj int) []c12Field {
 	var out []c12Field
 	b := t.Bytes
 	if onlyObj < 0 {
 		l, n := binary.Uvarint(b)
-		out = append(out, c12Field{Name: "car-header-len", Off: 0, Len: n, Enc: "uvarint", Cur: l})
+		out = append(out, c12Field{Name: "car-header-len", Off: 0, Len: n, Enc: "uvarint", Cur: l, Extra: c12BeyondCarLimit})
 		out = append(out, c12CborFields(b[n:t.HeaderLen], n, "car-header-")...)
 	}
 	for i, o := range t.Objects {
@@ -550,7 +553,7 @@ func c12CarFields(t *cargen.Truth, base int, onlyObj int) []c12Field {
 		}
 		off := int(o.Offset)
 		l, n := binary.Uvarint(b[off:])
-		out = append(out, c12Field{Name: fmt.Sprintf("section[%d]-len", i), Off: off - base, Len: n, Enc: "uvarint", Cur: l})
+		out = append(out, c12Field{Name: fmt.Sprintf("section[%d]-len", i), Off: off - base, Len: n, Enc: "uvarint", Cur: l, Extra: c12BeyondCarLimit})
 		// CIDv1: version, codec, multihash code, multihash length (one byte each here)
 		out = append(out, c12Field{Name: fmt.Sprintf("section[%d]-cid-mhlen", i), Off: off + n + 3 - base, Len: 1, Enc: "uvarint", Cur: uint64(b[off+n+3])})
 	}
@@ -612,7 +615,7 @@ func (w *c12World) carFamilies() []*c12Fam {
 	hdr := t.Bytes[:t.HeaderLen]
 	hl, hn := binary.Uvarint(hdr)
 	header := &c12Fam{Name: fmt.Sprintf("car/header/%dB", len(hdr)), Format: "car-header", Seed: hdr,
-		Fields: append([]c12Field{{Name: "car-header-len", Off: 0, Len: hn, Enc: "uvarint", Cur: hl}}, c12CborFields(hdr[hn:], hn, "car-header-")...),
+		Fields: append([]c12Field{{Name: "car-header-len", Off: 0, Len: hn, Enc: "uvarint", Cur: hl, Extra: c12BeyondCarLimit}}, c12CborFields(hdr[hn:], hn, "car-header-")...),
 		Run: func(x *c12Exec, in []byte) {
 			a := x.Guard(c12eCarReadHeader, func() error { _, err := carreader.ReadHeader(bytes.NewReader(in)); return err })
 			b := x.Guard(c12eCarNew, func() error { _, err := carreader.New(io.NopCloser(bytes.NewReader(in))); return err })
@@ -647,8 +650,14 @@ func (w *c12World) carFamilies() []*c12Fam {
 					return err
 				})
 				x.Guard(c12eReadNodeSize, func() error { _, err := readNodeSizeFromReaderAtWithOffset(c12Reader(in), 0); return err })
-				d := x.Guard(c12eCarInfoData, func() error { _, _, _, err := carreader.ReadNodeInfoWithData(bufio.NewReader(bytes.NewReader(in))); return err })
-				e := x.Guard(c12eCarInfoNoData, func() error { _, _, err := carreader.ReadNodeInfoWithoutData(bufio.NewReader(bytes.NewReader(in))); return err })
+				d := x.Guard(c12eCarInfoData, func() error {
+					_, _, _, err := carreader.ReadNodeInfoWithData(bufio.NewReader(bytes.NewReader(in)))
+					return err
+				})
+				e := x.Guard(c12eCarInfoNoData, func() error {
+					_, _, err := carreader.ReadNodeInfoWithoutData(bufio.NewReader(bytes.NewReader(in)))
+					return err
+				})
 				x.SeedOK(a && b && c && d && e, "parsing the seed section")
 			}})
 	}
@@ -660,7 +669,7 @@ func (w *c12World) carFamilies() []*c12Fam {
 // ---------------------------------------------------------------------------------------------
 
 func c12SizedFields(b []byte) (fields []c12Field, headerSize int, spans [][2]int) {
-	hl := c12Fixed(b, "header-len", 8, 4)
+	hl := c12Big(c12Fixed(b, "header-len", 8, 4))
 	hl.Extra = []uint64{12} // Header.Load rejects lengths below 12
 	fields = append(fields,
 		hl, c12Fixed(b, "value-size", 12, 8), c12Fixed(b, "num-buckets", 20, 4), c12Fixed(b, "version", 24, 1))
@@ -676,7 +685,7 @@ func c12SizedFields(b []byte) (fields []c12Field, headerSize int, spans [][2]int
 		if ne == 0 && i != 0 && i != nb-1 {
 			continue
 		}
-		fields = append(fields, c12Fixed(b, fmt.Sprintf("bucket[%d]-num-entries", i), o+4, 4), c12Fixed(b, fmt.Sprintf("bucket[%d]-hash-len", i), o+8, 1),
+		fields = append(fields, c12Big(c12Fixed(b, fmt.Sprintf("bucket[%d]-num-entries", i), o+4, 4)), c12Fixed(b, fmt.Sprintf("bucket[%d]-hash-len", i), o+8, 1),
 			c12Fixed(b, fmt.Sprintf("bucket[%d]-file-offset", i), o+10, 6))
 		fo := int(c12LE(b, o+10, 6))
 		if ne > 0 {
@@ -692,7 +701,7 @@ func c12LegacyFields(b []byte, stride int) (fields []c12Field, spans [][2]int) {
 	for i := 0; i < nb; i++ {
 		o := 32 + 16*i
 		ne := int(binary.LittleEndian.Uint32(b[o+4 : o+8]))
-		fields = append(fields, c12Fixed(b, fmt.Sprintf("bucket[%d]-num-entries", i), o+4, 4), c12Fixed(b, fmt.Sprintf("bucket[%d]-hash-len", i), o+8, 1),
+		fields = append(fields, c12Big(c12Fixed(b, fmt.Sprintf("bucket[%d]-num-entries", i), o+4, 4)), c12Fixed(b, fmt.Sprintf("bucket[%d]-hash-len", i), o+8, 1),
 			c12Fixed(b, fmt.Sprintf("bucket[%d]-file-offset", i), o+10, 6))
 		fo := int(c12LE(b, o+10, 6))
 		spans = append(spans, [2]int{fo, fo + ne*stride})
@@ -986,7 +995,11 @@ func (w *c12World) indexFamilies(dir string, thorough bool) []*c12Fam {
 					x.Guard(c12eLegacyLookup, func() error { db.Prefetch(true); _, err := db.Lookup(keys[0]); db.Prefetch(false); return err })
 				}
 				var r *indexes.Deprecated_CidToOffset_Reader
-				ok = x.Guard(c12eOpenDepCid, func() error { v, err := indexes.Deprecated_OpenWithReader_CidToOffset(c12Reader(in)); r = v; return err })
+				ok = x.Guard(c12eOpenDepCid, func() error {
+					v, err := indexes.Deprecated_OpenWithReader_CidToOffset(c12Reader(in))
+					r = v
+					return err
+				})
 				if ok && r != nil {
 					for _, c := range append(append([]cid.Cid{}, cids...), absentCid) {
 						c := c
@@ -1197,14 +1210,14 @@ func (w *c12World) bucketteerFamilies(dir string, thorough bool) []*c12Fam {
 		c12Must(wr.Close())
 		data := c12ReadAndRemove(p)
 		hs := int(binary.LittleEndian.Uint32(data[0:4])) + 4
-		fields := []c12Field{c12Fixed(data, "header-size", 0, 4), c12Fixed(data, "version", 12, 8), c12Fixed(data, "num-meta", 20, 8)}
+		fields := []c12Field{c12Big(c12Fixed(data, "header-size", 0, 4)), c12Fixed(data, "version", 12, 8), c12Big(c12Fixed(data, "num-meta", 20, 8))}
 		pos := 28
 		nm := int(binary.LittleEndian.Uint64(data[20:28]))
 		for i := 0; i < 2*nm; i++ {
-			fields = append(fields, c12Fixed(data, fmt.Sprintf("meta-string[%d]-len", i), pos, 4))
+			fields = append(fields, c12Big(c12Fixed(data, fmt.Sprintf("meta-string[%d]-len", i), pos, 4)))
 			pos += 4 + int(binary.LittleEndian.Uint32(data[pos:pos+4]))
 		}
-		fields = append(fields, c12Fixed(data, "num-prefixes", pos, 8))
+		fields = append(fields, c12Big(c12Fixed(data, "num-prefixes", pos, 8)))
 		np := int(binary.LittleEndian.Uint64(data[pos : pos+8]))
 		pos += 8
 		for i := 0; i < np; i++ {
